@@ -49,7 +49,7 @@ m = {
         {"name": "kani", "path": "/verif/kani", "serves_properties": [p for p in props if p in registry.PROPS and registry.PROPS[p].get("kani")],
          "kind_free_text": "Kani 0.68 / CBMC 6.11 (CaDiCaL) bounded model checking of the real rust-msi sources, #[kani::proof] harnesses over kani::any() inputs, unwinding assertions on"},
         {"name": "mir-smt", "path": "/verif/vlib/mir_engine.py", "serves_properties": [p for p in props if p in registry.PROPS and registry.PROPS[p].get("mir")],
-         "kind_free_text": "symbolic execution of the nightly compiler's MIR dump of loop-free rust-msi functions into SMT-LIB2 (integers with range side conditions), decided by z3 and cross-checked with cvc5"},
+         "kind_free_text": "symbolic execution of the nightly compiler's MIR dump of rust-msi functions (loops unrolled to a stated bound, calls leaving the crate as arbitrary-result events, iterators modelled by collection identity and position) into SMT-LIB2 (integers with range side conditions), decided by z3 5.1 and cvc5; counterexamples replayed natively through the public API before they are reported"},
     ],
     "checks": checks,
     "not_applicable": na,
